@@ -639,7 +639,7 @@ def _engine_extra(pid):
                 if len(parts) == 3 and parts[1] == pid:
                     out.append(viol('standard engines: ' + parts[2], [], {'engine_driver_seed': s}))
         cov.setdefault('extra', {})['standard_engine_checks'] = {'seeds': len(seeds), 'checks_passed_all_properties': total_ok,
-            'engines': 'minstd_rand0 minstd_rand mt19937 mt19937_64 ranlux24_base ranlux48_base ranlux24 ranlux48 knuth_b + synthetic ranges 3, 1000, 65537', 'types': 'float double long double'}
+            'engines': 'minstd_rand0 minstd_rand mt19937 mt19937_64 ranlux24_base ranlux48_base ranlux24 ranlux48 knuth_b + independent_bits_engine (7, 14, 25, 28, 50, 53 bits) + lcg m=2^64-59 + synthetic ranges 3, 1000, 65537', 'types': 'float double long double'}
         return out
     return f
 # ---- the process environment as an input (C++-only differential): C03, C05, C20 --------------------------
